@@ -139,6 +139,9 @@ impl St {
                             if has("more_than_18_inserts_per_table") && self.inserted.get(table).copied().unwrap_or(0) + rows.len() as u32 > 18 {
                                 return Some("more_than_18_inserts_per_table".into());
                             }
+                            if has("more_than_32_inserts_per_table") && self.inserted.get(table).copied().unwrap_or(0) + rows.len() as u32 > 32 {
+                                return Some("more_than_32_inserts_per_table".into());
+                            }
                             if has("more_than_100_inserts_per_table") && self.inserted.get(table).copied().unwrap_or(0) + rows.len() as u32 > 100 {
                                 return Some("more_than_100_inserts_per_table".into());
                             }
